@@ -32,10 +32,10 @@ def cvtFloatToInt64 (b : UInt64) : Int :=
 def cvtFloatToUint64 (b : UInt64) : Nat :=
   if F64.ltInt b (2^63) then (ofInt64 (cvtFloatToInt64 b)).toNat
   else
-    -- v - 2^63 converted, then the top bit flipped
+    -- int64(v - 2^63) | 1<<63; out of range and NaN convert to the "indefinite" 2^63
     match F64.trunc? b with
-    | some z => if (2^63 : Int) ≤ z ∧ z < 2^64 then z.toNat else 0
-    | none => 0
+    | some z => if (2^63 : Int) ≤ z ∧ z < 2^64 then z.toNat else 2^63
+    | none => 2^63
 
 /-- `Int()` -/
 def int (pj : PJ) (i : Iter) : Res Int :=
